@@ -288,6 +288,10 @@ def run_case(case, ctx):
     elif kind in ("ifrom", "bfrom"):
         ctxt = ids
         pool = ids + ["nope", "zz"]
+        if rng.random() < 0.25:
+            ctxt = [0] + [i for i in ids if i != "0"]           # [v.id for v in polyhedron.variables]: int 0 first, then str ids
+            pool = ctxt + ["0", "nope", 1]
+            ctx.count("count:mixed-type-context")
         def flat():
             k = rng.randint(1, len(pool))
             return rng.sample(pool, k)
